@@ -1,6 +1,7 @@
 package chain
 
 import (
+	"math/big"
 	"encoding/json"
 	"fmt"
 	"math/rand"
@@ -53,7 +54,9 @@ func (f *Fam) Exec(op string) (obs string, fails []common.Failure) {
 	case "begin":
 		obs = f.doBegin(w)
 		if !f.dead {
-			f.checkBegin(before, f.app.Snap(), fail)
+			after := f.app.Snap()
+			f.checkSlashing(before, after, w, fail)
+			f.checkBegin(before, after, fail)
 		}
 	case "end":
 		obs = f.doEnd()
@@ -420,6 +423,160 @@ func (f *Fam) checkBegin(before, after *Snapshot, fail func(string, string, stri
 		fail("award-queue-emptied", "C10:award-queue-not-empty", "award queue not empty after BeginBlock")
 	}
 	f.awardsQueued = map[string]sdk.Int{}
+}
+
+// paramBig reads an integer or fixed-point parameter ("123" or "0.050000000000000000") as its raw integer
+// (fixed-point values scaled by 10^18).
+func paramBig(s *Snapshot, key string) (*big.Int, bool) {
+	raw, ok := s.Params[key]
+	if !ok {
+		return nil, false
+	}
+	var str string
+	if json.Unmarshal([]byte(raw), &str) != nil {
+		return nil, false
+	}
+	if i := strings.IndexByte(str, '.'); i >= 0 {
+		frac := str[i+1:]
+		for len(frac) < 18 {
+			frac += "0"
+		}
+		str = str[:i] + frac[:18]
+	}
+	x, ok := new(big.Int).SetString(str, 10)
+	return x, ok
+}
+
+// stakeAfterSlash is the stake a slash (power p, fraction fRaw/10^18) must leave: min(trunc(p*10^6*f), stake)
+// is removed; a remainder under the minimum is burned too; a slash that removes nothing changes nothing.
+func stakeAfterSlash(stake *big.Int, p int64, fRaw, min *big.Int) *big.Int {
+	amt := new(big.Int).Mul(big.NewInt(p), big.NewInt(1000000))
+	amt.Mul(amt, fRaw)
+	amt.Quo(amt, new(big.Int).Exp(big.NewInt(10), big.NewInt(18), nil))
+	if amt.Cmp(stake) > 0 {
+		amt = new(big.Int).Set(stake)
+	}
+	if amt.Sign() <= 0 {
+		return new(big.Int).Set(stake)
+	}
+	r := new(big.Int).Sub(stake, amt)
+	if r.Cmp(min) < 0 {
+		return big.NewInt(0)
+	}
+	return r
+}
+
+// checkSlashing: C07 (what a slash removes) and C09 (a conviction tombstones and jails for ever), evaluated per
+// validator on blocks where at most one cause of slashing applies to it, so that the expected stake is a closed
+// formula that does not depend on the downtime bookkeeping (whether the downtime slash happens is C08's matter).
+func (f *Fam) checkSlashing(before, after *Snapshot, w []string, fail func(string, string, string)) {
+	m := kv(w)
+	type ev struct {
+		h, t, p int64
+	}
+	evs := map[string][]ev{}
+	missed := map[string][]int64{}
+	if m["e"] != "" && m["e"] != "-" {
+		for _, s := range strings.Split(m["e"], ",") {
+			x := strings.Split(s, ":")
+			evs[x[0]] = append(evs[x[0]], ev{atoi(x[1]), atoi(x[2]), atoi(x[3])})
+		}
+	}
+	if m["v"] != "" && m["v"] != "-" {
+		for _, s := range strings.Split(m["v"], ",") {
+			x := strings.Split(s, ":")
+			// a vote of either kind can be the one at which accumulated misses are punished
+			missed[x[0]] = append(missed[x[0]], atoi(x[1]))
+		}
+	}
+	min, ok1 := paramBig(before, "pos/StakeMinimum")
+	fDown, ok2 := paramBig(before, "pos/SlashFractionDowntime")
+	maxAge, ok3 := paramBig(before, "pos/MaxEvidenceAge")
+	if !ok1 || !ok2 || !ok3 {
+		return
+	}
+	forever := unixNs(posTypes.DoubleSignJailEndTime)
+	for a, v := range before.Vals {
+		if v.Status == 0 {
+			continue
+		}
+		stake := v.Tokens.BigInt()
+		got := big.NewInt(0)
+		if va, ok := after.Vals[a]; ok {
+			got = va.Tokens.BigInt()
+		}
+		var inWindow []ev
+		for _, e := range evs[a] {
+			if f.now-e.t <= maxAge.Int64() {
+				inWindow = append(inWindow, e)
+			}
+		}
+		burn, hasBurn := before.Burns[a]
+		switch {
+		case len(inWindow) > 0:
+			// confirmed double signing inside the window: everything is burned, the validator is tombstoned and
+			// jailed for ever (the block did not halt, so the evidence was acted upon)
+			f.extra["c07:conviction-checked"]++
+			if got.Sign() != 0 {
+				fail("conviction-burns-all", "C07:conviction-left-stake", fmt.Sprintf("BeginBlock %d: %s convicted of double signing keeps %s of %s", f.height, a, got, stake))
+			}
+			si, ok := after.Sign[a]
+			if !ok || !si.Tomb || si.JailedUntil != forever {
+				fail("conviction-tombstones", "C09:convicted-not-tombstoned", fmt.Sprintf("BeginBlock %d: %s convicted of double signing: tombstoned=%v jailedUntil=%d", f.height, a, si.Tomb, si.JailedUntil))
+			}
+			if va, ok := after.Vals[a]; ok && !va.Jailed {
+				fail("conviction-jails", "C09:convicted-not-jailed", fmt.Sprintf("BeginBlock %d: %s convicted of double signing is not jailed", f.height, a))
+			}
+		case hasBurn && len(missed[a]) == 0:
+			sev, _ := new(big.Int).SetString(burn, 10)
+			p := int64(0)
+			if v.Status == 2 {
+				p = new(big.Int).Quo(stake, big.NewInt(1000000)).Int64()
+			}
+			f.extra["c07:queued-burn-checked"]++
+			if exp := stakeAfterSlash(stake, p, sev, min); got.Cmp(exp) != 0 {
+				fail("burn-exact", "C07:burn-ne-fraction", fmt.Sprintf("BeginBlock %d: %s (stake %s, power %d) burned with severity %s/10^18 keeps %s, expected %s", f.height, a, stake, p, sev, got, exp))
+			}
+		case !hasBurn && len(missed[a]) == 1 && !v.Jailed:
+			exp := stakeAfterSlash(stake, missed[a][0], fDown, min)
+			// the downtime punishment is slash-and-jail in one step: the validator was jailed in this block exactly
+			// when it was slashed
+			punished := false
+			if va, ok := after.Vals[a]; ok && va.Jailed {
+				punished = true
+			}
+			if punished {
+				f.extra["c07:downtime-slash-checked"]++
+				if missed[a][0]*1000000 > stake.Int64() {
+					f.extra["c07:downtime-slash-reported-power-above-current"]++
+				}
+				if v.Status == 1 {
+					f.extra["c07:downtime-slash-of-unstaking"]++
+				}
+				if got.Cmp(exp) != 0 {
+					fail("slash-exact", "C07:slash-ne-fraction", fmt.Sprintf("BeginBlock %d: %s (stake %s, status %d) slashed and jailed for downtime at reported power %d, fraction %s/10^18, keeps %s, expected %s", f.height, a, stake, v.Status, missed[a][0], fDown, got, exp))
+				}
+			} else if got.Cmp(stake) != 0 {
+				fail("no-cause-no-slash", "C07:stake-changed-without-cause", fmt.Sprintf("BeginBlock %d: the stake of %s went from %s to %s although it was not punished for downtime", f.height, a, stake, got))
+			}
+		case !hasBurn && len(missed[a]) == 0:
+			if got.Cmp(stake) != 0 {
+				fail("no-cause-no-slash", "C07:stake-changed-without-cause", fmt.Sprintf("BeginBlock %d: the stake of %s went from %s to %s with no vote, evidence or queued burn", f.height, a, stake, got))
+			}
+		}
+	}
+	// evidence outside the window burns nothing and convicts nobody
+	for a, l := range evs {
+		old := true
+		for _, e := range l {
+			if f.now-e.t <= maxAge.Int64() {
+				old = false
+			}
+		}
+		if sb, sa := before.Sign[a], after.Sign[a]; old && !sb.Tomb && sa.Tomb {
+			fail("expired-evidence-ignored", "C07:expired-evidence-convicted", fmt.Sprintf("BeginBlock %d: %s tombstoned on evidence older than the window", f.height, a))
+		}
+	}
 }
 
 func (f *Fam) requiredFee(kind string) sdk.Int {
